@@ -118,6 +118,10 @@ def runTimeCase (id : String) (pipe : SExp) (events : List (List SExp)) (fb : Bo
           :: go w (k + 1) r
       | .atom "q" :: .atom "pulls" :: _ =>
         s!"{id}.{k} pulls={w.pulls}" :: go w (k + 1) r
+      | .atom "q" :: .atom "tap" :: _ =>
+        -- the call counters of the `tap` stages, source side first (the order in which the harness builds them)
+        let cs := w.stages.filterMap fun st => match st with | .op1 (.tap c) => some c | _ => none
+        s!"{id}.{k} tap=[{String.intercalate "," (cs.map toString)}]" :: go w (k + 1) r
       | .atom "q" :: .atom "closed" :: _ =>
         s!"{id}.{k} closed={if w.isClosed then "1" else "0"}" :: go w (k + 1) r
       | _ =>
